@@ -383,7 +383,10 @@ func (e *Engine) readSet(name string, con *Contract) []string {
 		return rs
 	}
 	var out []string
-	if con != nil && con.Reads != nil {
+	if con != nil && len(con.ReadLocs) > 0 && con.Reads == nil {
+		// kinds follow from the footprint: conservatively all scalar kinds
+		out = []string{"H:Bool", "H:Int", "H:Ref", "H:Slice", "H:Str"}
+	} else if con != nil && con.Reads != nil {
 		for _, r := range con.Reads {
 			if r == "nothing" {
 				continue
